@@ -14,6 +14,7 @@ type Gen struct {
 	Alias  bool // wrap sub-terms in (alias T) now and then
 	NoIter bool // never produce Iterable (outside the reference fragment of C02)
 	NoUnit bool // never produce Unit (excluded by C01 and C03)
+	pool   []Ty // recently made (alias T) terms: re-used so that ONE alias object occurs at several places of a term
 }
 
 func (g *Gen) n(k int) int              { return g.R.Intn(k) }
@@ -161,14 +162,106 @@ func (g *Gen) enum() Ty {
 
 // Ty is a random term of depth ≤ depth; every constructor of the term language is reachable.
 func (g *Gen) Ty(depth int) Ty {
+	if g.Alias && len(g.pool) > 0 && g.p(6) {
+		return g.pool[g.n(len(g.pool))] // the same alias once more (the builder makes it the same object)
+	}
 	t := g.ty(depth)
 	if g.Alias && g.p(8) {
 		t = Alias(t)
 		if g.p(20) {
 			t = Alias(t) // an alias of an alias
 		}
+		if len(g.pool) < 3 {
+			g.pool = append(g.pool, t)
+		} else {
+			g.pool[g.n(3)] = t
+		}
 	}
 	return t
+}
+
+// GuardCase exercises the recursion guard of aliases (TypeAliasType.IsAssignable / IsInstance: Seen / Done).  The guard
+// is created by the outermost alias and keyed by the identity of (alias, right-hand type or value), so it only ever
+// matters when ONE alias object meets the SAME right-hand part twice inside one outer comparison: an outer alias
+// around a Variant (or several Variants) whose members hold the same inner alias P next to different siblings.  A guard
+// that remembers a finished comparison answers the second meeting with `true`.
+type GuardCase struct {
+	A, B Ty
+	V    Val
+}
+
+// GuardCases: P is an alias of a leaf (or Data / RichData, the built-in aliases), X a type P rejects or accepts,
+// T1 ≠ T2 two sibling types; A = alias(Variant[F[P, T1], F[P, T2], …]) and B = F[X, T2] for F in Tuple, Struct, Hash,
+// also with the members in the other order, three members, and the Variant nested below Array / Optional / Struct.
+func (g *Gen) GuardCases(n int) []GuardCase {
+	var out []GuardCase
+	inner := func() (Ty, Ty) { // P and the leaf it stands for
+		switch g.n(8) {
+		case 0:
+			return Atom("data"), Atom("data")
+		case 1:
+			return Atom("rdata"), Atom("rdata")
+		case 2:
+			l := g.Leaf()
+			return Alias(Alias(l)), l
+		case 3:
+			l := Arr(g.Leaf(), 0, MaxI)
+			return Alias(l), l
+		default:
+			l := g.Leaf()
+			return Alias(l), l
+		}
+	}
+	for len(out) < n {
+		p, l := inner()
+		var x Ty
+		switch g.n(6) {
+		case 0:
+			x = l // accepted
+		case 1:
+			x = g.Narrow(l)
+		case 2:
+			x = Atom("bin") // rejected by Data, by most leaves
+		case 3:
+			x = Rx("a")
+		default:
+			x = g.Leaf()
+		}
+		t1, t2 := g.Leaf(), g.Leaf()
+		f := func(a, b Ty) Ty { return TupSz([]Ty{a, b}, 2, 2) }
+		switch g.n(5) {
+		case 0:
+			f = func(a, b Ty) Ty { return Struct(Mem("a", false, a), Mem("b", false, b)) }
+		case 1:
+			f = func(a, b Ty) Ty { return Hash(a, b, 0, MaxI) }
+		case 2:
+			f = func(a, b Ty) Ty { return Tup([]Ty{a, a, b}) }
+		}
+		members := []Ty{f(p, t1), f(p, t2)}
+		switch g.n(4) {
+		case 0:
+			members = []Ty{f(p, t2), f(p, t1)}
+		case 1:
+			members = []Ty{f(p, t1), f(p, g.Leaf()), f(p, t2)}
+		}
+		var a Ty = Var(members...)
+		b := f(x, t2)
+		switch g.n(5) {
+		case 0:
+			a, b = Arr(a, 0, MaxI), Arr(b, 0, 3)
+		case 1:
+			a, b = Opt(a), b
+		case 2:
+			a, b = Struct(Mem("k", false, a), Mem("l", true, a)), Struct(Mem("k", false, b), Mem("l", true, b))
+		}
+		a = Alias(a)
+		v, ok := g.Witness(b)
+		if !ok {
+			v = g.Val(2)
+		}
+		out = append(out, GuardCase{a, b, v})
+	}
+	return out
 }
 
 func (g *Gen) ty(depth int) Ty {
